@@ -1,6 +1,5 @@
-"""Engine rules over Array::backward / Array::propagate_consumers and the backward closures:
-R9 SLOT-ARITY-AND-GATE, R10 FLAG-WRITERS-AND-PAIRING, R11 SHAPE-TYPESTATE, R14 DEFAULT-SEED,
-R23 ENGINE-STATE-LAYERING, R24 COUNT-PROTOCOL, R25 ACCUMULATE-ARMS.  See DESIGN.md section 3."""
+"""R9 SLOT-ARITY-AND-GATE over every backward closure (the engine rules R10, R11, R14, R23,
+R24, R25 live in pass_rules.py).  See DESIGN.md section 3."""
 
 from . import facts as F
 from . import trackeval as TE
@@ -374,949 +373,3 @@ def r9_slot_arity_and_gate(facts):
             else:
                 c.unk(sinst, swhere, "slot %d has an unrecognised form: %s" % (i, show(s)[:120]))
     return c
-
-
-# ------------------------------------------------------------------ R10
-
-FLAG_WRITE_METHODS = ("set", "replace", "swap", "take", "update", "get_mut", "as_ptr")
-
-
-def r10_flag_writers_and_pairing(facts):
-    """R10: who writes the tracking flags; stop/restore pairing around the derivative call."""
-    c = Ctx("R10", facts, "tracking flags: writers, callers, and stop/restore pairing in the pass")
-    flags = field_roles(facts).get("flags", [])
-    c.floor("per-handle flag fields (Cell<bool>)", len(flags), 2)
-    eng = engine_bodies(facts)
-    c.floor("engine bodies", len(eng), 2)
-    setters = {}    # body def -> [(field, method, node)]
-    for b in facts.bodies:
-        for n in walk(facts.root(b)):
-            if n.get("k") == "Call" and (callee(n) or "").startswith(CELL) and n["args"]:
-                m = callee(n).split("::")[-1]
-                if m in FLAG_WRITE_METHODS:
-                    root, chain = field_chain(n["args"][0])
-                    if chain and chain[-1] in flags:
-                        setters.setdefault(b["def"], []).append((chain[-1], m, n))
-    allowed_setters = ("tracked", "untracked", "start_tracking", "stop_tracking")
-    n_w = 0
-    for d, ws in setters.items():
-        b = facts.body(d)
-        ok = b.get("impl_self") == ARRAY and b.get("impl_trait_def") is None and b.get("name") in allowed_setters
-        for fld, m, n in ws:
-            n_w += 1
-            c.check(ok, "flag-writer:%s#%s" % (d, fld), loc(b, n),
-                    "flag %s written by the flag API (%s)" % (fld, b.get("name")),
-                    "flag %s is written (Cell::%s) outside tracked/untracked/start_tracking/stop_tracking" % (fld, m))
-    c.floor("flag write sites", n_w, 6)
-    # MIR: direct stores to the flag fields
-    for b in facts.bodies:
-        mir = b.get("mir")
-        if not mir:
-            continue
-        for p in mir["field_places"]:
-            if p["ctx"] in MUTATING and any(isinstance(e, dict) and e.get("adt") == ARRAY and e["field"] in flags for e in p["proj"]):
-                c.bad("flag-store:%s" % b["def"], "%s:%d" % (F.rel(b["file"]), p["sp"][0]), "%s of a flag field in %s" % (p["ctx"], b["def"]))
-    # callers of the flag API inside the library
-    eng_defs = set()
-    for e in eng.values():
-        for x in facts.nested(e):
-            eng_defs.add(x["def"])
-    n_calls = 0
-    for b in facts.bodies:
-        for n in walk(facts.root(b)):
-            if n.get("k") != "Call":
-                continue
-            r = resolved(n)
-            if r in ("corgi::array::Array::start_tracking", "corgi::array::Array::stop_tracking"):
-                n_calls += 1
-                c.check(b["def"] in eng_defs, "flag-call:%s#%s" % (b["def"], r.split("::")[-1]), loc(b, n),
-                        "%s called by the backward pass" % r.split("::")[-1],
-                        "%s called outside Array::backward: library code changes the tracking flag of an existing array" % r.split("::")[-1])
-            elif r in ("corgi::array::Array::tracked", "corgi::array::Array::untracked"):
-                n_calls += 1
-                recv = strip(n["args"][0])
-                fresh = False
-                why = ""
-                if recv.get("k") == "Call" and (resolved(recv) or "").startswith("<corgi::array::Array as core::convert::From<"):
-                    fresh, why = True, "on a freshly constructed array"
-                elif recv.get("k") == "VarRef" and b.get("name") == "with_children" and b.get("impl_self") == ARRAY \
-                        and recv["v"] == self_var(facts, b) and (b.get("inputs") or [""])[0] == ARRAY:
-                    fresh, why = True, "on the by-value array under construction"
-                c.check(fresh, "flag-call:%s#%s" % (b["def"], r.split("::")[-1]), loc(b, n),
-                        "%s() %s" % (r.split("::")[-1], why),
-                        "%s() applied to an existing array inside the library (%s)" % (r.split("::")[-1], show(recv)[:80]))
-    c.floor("flag API call sites in the library", n_calls, 7)
-
-    # (b) pairing
-    bw = eng.get("backward")
-    if not bw:
-        return c
-    sites = [s for s in invocation_sites(facts) if s[0]["def"] == bw["def"]]
-    if len(sites) != 1:
-        c.unk("pairing:invocation", "%s:%d" % (F.rel(bw["file"]), bw["sp"][0]), "expected one derivative invocation in backward, found %d" % len(sites))
-        return c
-    _, inv, _ctx = sites[0]
-    edges = role(facts, "edges")
-    selfv = self_var(facts, bw)
-    # find the block whose statements contain the invocation
-    holder = None
-    for n in walk(facts.root(bw)):
-        if n.get("k") == "Block":
-            for i, s in enumerate(n["stmts"]):
-                e = s.get("init") if s["s"] == "let" else s.get("e")
-                if e is not None and any(x is inv for x in walk(e)):
-                    # innermost block wins (keep overwriting while descending)
-                    holder = (n, i)
-    if holder is None:
-        c.unk("pairing:block", loc(bw, inv), "invocation is not a statement of a block")
-        return c
-    blk, inv_i = holder
-
-    def stmt_expr(s):
-        return s.get("init") if s["s"] == "let" else s.get("e")
-
-    def iterates_self_children(e):
-        for x in walk(e):
-            if x.get("k") == "Field" and x.get("name") == edges and var_of(x["e"]) == selfv:
-                return True
-        return False
-
-    def closure_calls(e, fn):
-        """does e (including closures passed inside it) call fn ? returns the closure bodies that do"""
-        hits = []
-        for x in walk(e):
-            if x.get("k") == "Call" and resolved(x) == fn:
-                hits.append(None)
-            if x.get("k") == "Closure":
-                cb = facts.body(x["closure"])
-                if cb and any(y.get("k") == "Call" and resolved(y) == fn for y in walk(facts.root(cb))):
-                    hits.append(cb)
-        return hits
-
-    saved = None
-    saved_i = None
-    for i, s in enumerate(blk["stmts"][:inv_i]):
-        e = stmt_expr(s)
-        if s["s"] == "let" and s["pat"].get("k") == "Binding" and e is not None and iterates_self_children(e) \
-                and closure_calls(e, "corgi::array::Array::stop_tracking") and s["pat"]["ty"] == "alloc::vec::Vec<bool>":
-            saved, saved_i = s["pat"]["v"], i
-    c.check(saved is not None, "pairing:stop", loc(bw, inv),
-            "operands are un-tracked before the derivative runs and their flags saved in a Vec<bool>",
-            "no statement before the derivative call saves the operands' flags while stopping tracking")
-    if saved is None:
-        return c
-    # (i) the saved vector is the closure's second argument
-    tup = strip(inv["args"][1]) if len(inv["args"]) > 1 else None
-    second = tup["fields"][1] if tup and tup.get("k") == "Tuple" and len(tup["fields"]) == 3 else None
-    c.check(second is not None and var_of(second) == saved, "pairing:flags-argument", loc(bw, inv),
-            "the saved flags are what the derivative closure receives as its tracked-mask",
-            "the derivative closure's mask argument is not the vector of saved flags")
-    first = tup["fields"][0] if tup and tup.get("k") == "Tuple" and len(tup["fields"]) == 3 else None
-    fr, fchain = field_chain(first) if first is not None else (None, [])
-    c.check(first is not None and var_of(fr) == selfv and fchain == [edges], "pairing:children-argument", loc(bw, inv),
-            "the derivative closure receives self.%s (the recorded operands, in order)" % edges,
-            "the derivative closure's operand argument is not self.%s" % edges)
-    # (ii) restore after the invocation
-    restore_i = None
-    restore_ok = False
-    why = "no statement after the derivative call restores the saved flags"
-    for i in range(inv_i + 1, len(blk["stmts"])):
-        s = blk["stmts"][i]
-        e = stmt_expr(s)
-        if e is None:
-            continue
-        uses_saved = any(x.get("k") in ("VarRef", "UpvarRef") and x["v"] == saved for x in walk(e))
-        hits = closure_calls(e, "corgi::array::Array::start_tracking")
-        if hits and iterates_self_children(e) and uses_saved:
-            restore_i = i
-            ok, why = _restore_is_guarded(facts, bw, e, saved)
-            restore_ok = ok
-            break
-    c.check(restore_i is not None and restore_ok, "pairing:restore", loc(bw, blk["stmts"][restore_i].get("e")) if restore_i is not None else loc(bw, inv),
-            "after the derivative call every operand whose saved flag was true is re-tracked (iteration over self.%s zipped with the saved flags, filtered on the flag)" % edges,
-            why)
-    # (iii) no early exit between stop and restore
-    lo = saved_i if saved_i is not None else 0
-    hi = restore_i if restore_i is not None else len(blk["stmts"]) - 1
-    exits = []
-    for s in blk["stmts"][lo:hi + 1]:
-        e = stmt_expr(s)
-        for x, xctx in walk_ctx(e):
-            if x.get("k") == "Return":
-                exits.append(x)
-            if x.get("k") in ("Break", "Continue") and not any(fr[0] == "loop" for fr in xctx):
-                exits.append(x)         # a break/continue that leaves the statement (loop-local ones do not)
-            if x.get("k") == "Match" and str(x.get("source", "")).startswith("TryDesugar"):
-                exits.append(x)
-    c.check(not exits, "pairing:no-early-exit", loc(bw, inv), "no return/break/? between stop and restore",
-            "early exit between stopping and restoring tracking flags")
-    return c
-
-
-def _restore_is_guarded(facts, bw, e, saved):
-    """The start_tracking call must be control-dependent on the saved flag of the same position."""
-    # form A: iterator chain  children.iter().zip(saved).filter(|(_, t)| *t).for_each(|(c, _)| c.start_tracking())
-    e0 = strip(e)
-    if e0.get("k") == "Call" and callee(e0) == "core::iter::traits::iterator::Iterator::for_each":
-        src = strip(e0["args"][0])
-        if src.get("k") == "Call" and callee(src) == "core::iter::traits::iterator::Iterator::filter":
-            zipc = strip(src["args"][0])
-            fclo = strip(src["args"][1])
-            if not (zipc.get("k") == "Call" and callee(zipc) == "core::iter::traits::iterator::Iterator::zip"):
-                return False, "restore filter is not applied to children zipped with the saved flags"
-            zargs = [zipc["args"][0], zipc["args"][1]]
-            pos = None
-            for i, a in enumerate(zargs):
-                if any(x.get("k") in ("VarRef", "UpvarRef") and x["v"] == saved for x in walk(a)):
-                    pos = i
-            if pos is None:
-                return False, "the saved flags are not zipped with the operands"
-            if fclo.get("k") != "Closure":
-                return False, "filter predicate is not a closure literal"
-            fb = facts.body(fclo["closure"])
-            _, tail = closure_tail(facts, fb)
-            t = peel(tail)
-            binds = param_vars(facts, fb)
-            # binding at tuple position `pos`
-            flagvars = [v for v, _, ty, path in binds if path and path[-1] == str(pos) or (path and path[0] == str(pos))]
-            flagvars = [v for v, _, ty, path in binds if [p for p in path if p != "*"] == [str(pos)]]
-            if t.get("k") in ("VarRef", "UpvarRef") and t["v"] in flagvars:
-                return True, ""
-            return False, "the restore filter does not test the saved flag itself (found `%s`): operands would be re-tracked under the wrong condition" % show(tail)[:80]
-        return False, "restore is an unfiltered for_each: every operand would become tracked"
-    # form B: for loop with `if flag { c.start_tracking() }`
-    for n, ctx in walk_ctx(e):
-        if n.get("k") == "Call" and resolved(n) == "corgi::array::Array::start_tracking":
-            for fr in ctx:
-                if fr[0] == "if" and fr[2] == "then":
-                    cond = peel(fr[1]["cond"])
-                    if cond.get("k") in ("VarRef",) or (cond.get("k") == "Index" and var_of(cond["e"]) == saved):
-                        return True, ""
-            return False, "start_tracking is not guarded by the saved flag"
-    return False, "restore statement not understood"
-
-
-# ------------------------------------------------------------------ R11 / R14 / R25 share a model of `backward`
-
-class PassModel:
-    """Names the pieces of Array::backward that R11/R14/R25 talk about."""
-
-    def __init__(self, facts):
-        self.facts = facts
-        self.ok = False
-        eng = engine_bodies(facts)
-        self.bw = eng.get("backward")
-        if not self.bw:
-            self.why = "Array::backward not found"
-            return
-        self.root = facts.root(self.bw)
-        self.selfv = self_var(facts, self.bw)
-        self.binds = F.bindings_of(self.root)
-        self.f_delta = role(facts, "delta")
-        self.f_grad = role(facts, "gradient")
-        self.f_counter = role(facts, "counter")
-        self.f_edges = role(facts, "edges")
-        ps = param_vars(facts, self.bw)
-        self.seedv = ps[1][0] if len(ps) > 1 else None
-        self.ok = all([self.selfv, self.f_delta, self.f_grad, self.f_counter, self.f_edges, self.seedv])
-        self.why = "" if self.ok else "engine fields / parameters not identified by type"
-
-    # -- shape typing ---------------------------------------------------------
-    def owner_of_dims(self, e):
-        """if e denotes `n.dimensions` (possibly through deref/clone) return n's variable"""
-        e = peel(e)
-        if e.get("k") == "Call" and callee(e) in ("core::clone::Clone::clone", "alloc::slice::<impl [T]>::to_vec", "alloc::borrow::ToOwned::to_owned"):
-            return self.owner_of_dims(e["args"][0])
-        root, chain = field_chain(e)
-        if chain == ["dimensions"] and var_of(root):
-            return var_of(root)
-        return None
-
-    def shape(self, e, depth=0):
-        """('owner', var) | ('raw', why)"""
-        e = peel(e)
-        if depth > 16 or not isinstance(e, dict):
-            return ("raw", "too deep")
-        k = e.get("k")
-        if k in ("VarRef", "UpvarRef"):
-            return self.shape_of_var(e["v"], depth + 1)
-        if k == "Call":
-            r = resolved(e)
-            if r == "corgi::array::Array::flatten_to":
-                n = self.owner_of_dims(e["args"][1])
-                if n:
-                    return ("owner", n)
-                return ("raw", "flatten_to target is not some node's dimensions")
-            if r == "corgi::array::arithmetic::<impl core::ops::arith::Add<&corgi::array::Array> for &corgi::array::Array>::add":
-                a = self.shape(e["args"][0], depth + 1)
-                b = self.shape(e["args"][1], depth + 1)
-                if a[0] == "owner" and a == b:
-                    return a
-                return ("raw", "sum of %s and %s" % (a, b))
-            if r == "<corgi::array::Array as core::clone::Clone>::clone":
-                return self.shape(e["args"][0], depth + 1)
-            if (r or "").startswith("<corgi::array::Array as core::convert::From<("):
-                tup = strip(e["args"][0])
-                if tup.get("k") == "Tuple":
-                    n = self.owner_of_dims(tup["fields"][0])
-                    if n:
-                        return ("owner", n)
-                return ("raw", "constructed with dimensions not taken from a node")
-            return ("raw", "result of %s" % r)
-        if k in ("If", "Match", "Block"):
-            outs = []
-            if k == "If":
-                branches = [e["then"], e.get("else")]
-            elif k == "Match":
-                branches = [a["body"] for a in e["arms"]]
-            else:
-                branches = [e.get("e")]
-            for b in branches:
-                if b is None:
-                    return ("raw", "missing branch")
-                outs.append(self.shape(b, depth + 1))
-            if all(o[0] == "owner" for o in outs) and len({o[1] for o in outs}) == 1:
-                return outs[0]
-            return ("raw", "branches disagree: %s" % outs)
-        return ("raw", "expression %s" % k)
-
-    def slot_owner(self, scrut):
-        """scrutinee reads the content of n.delta or n.gradient -> (n, field)"""
-        s = peel(scrut)
-        if s.get("k") == "Call" and (callee(s) == CELL + "take" or (callee(s) == CELL + "replace" and _is_none(strip(s["args"][1])))):
-            root, chain = field_chain(s["args"][0])
-            if chain == [self.f_delta] and var_of(root):
-                return var_of(root), self.f_delta
-        # &mut *gradient  where gradient = self.gradient.borrow_mut()
-        v = var_of(s)
-        if v and v in self.binds and self.binds[v][0] == "let":
-            init = peel(self.binds[v][1])
-            if init.get("k") == "Call" and callee(init) in ("core::cell::RefCell::<T>::borrow_mut", "core::cell::RefCell::<T>::borrow"):
-                root, chain = field_chain(init["args"][0])
-                if chain == [self.f_grad] and var_of(root):
-                    return var_of(root), self.f_grad
-        return None, None
-
-    def shape_of_var(self, v, depth):
-        if v == self.selfv:
-            return ("owner", self.selfv)
-        bnd = self.binds.get(v)
-        if bnd is None:
-            return ("raw", "unbound %s" % v)
-        if bnd[0] == "let":
-            if bnd[1] is None:
-                return ("raw", "uninitialised")
-            return self.shape(bnd[1], depth)
-        _, scrut, path, owner = bnd
-        if path in (["Some.0"], ["*", "Some.0"], ["Some.0", "*"]):
-            n, fld = self.slot_owner(scrut)
-            if n:
-                return ("owner", n)
-            if var_of(scrut) == self.seedv:
-                return ("owner", self.selfv)    # the property's own precondition: seeds have the result's shape
-        return ("raw", "bound by a pattern over %s" % show(scrut)[:60])
-
-    # -- sinks -----------------------------------------------------------------
-    def delta_sets(self):
-        """[(call node, ctx, owner var, stored value expr)] for every n.delta.set(Some(v))"""
-        out = []
-        for n, ctx in walk_ctx(self.root):
-            if n.get("k") == "Call" and callee(n) in (CELL + "set", CELL + "replace"):
-                root, chain = field_chain(n["args"][0])
-                if chain == [self.f_delta]:
-                    val = strip(n["args"][1])
-                    if callee(n) == CELL + "replace" and _is_none(val):
-                        continue        # `replace(None)` is `take()`
-                    out.append((n, ctx, var_of(root), val))
-        return out
-
-    def gradient_stores(self):
-        """[(assign node, ctx, owner var, rhs)] for stores through the gradient guard"""
-        out = []
-        for n, ctx in walk_ctx(self.root):
-            if n.get("k") == "Assign":
-                lhs = peel(n["l"])
-                v = var_of(lhs)
-                if v and v in self.binds and self.binds[v][0] == "let":
-                    init = peel(self.binds[v][1])
-                    if init.get("k") == "Call" and callee(init) == "core::cell::RefCell::<T>::borrow_mut":
-                        root, chain = field_chain(init["args"][0])
-                        if chain == [self.f_grad]:
-                            out.append((n, ctx, var_of(root), strip(n["r"])))
-            if n.get("k") == "Call" and callee(n) in ("core::cell::RefCell::<T>::replace", "core::option::Option::<T>::replace", "core::option::Option::<T>::insert"):
-                root, chain = field_chain(n["args"][0])
-                if chain and chain[-1] == self.f_grad:
-                    out.append((n, ctx, var_of(root), strip(n["args"][1])))
-        return out
-
-
-def _some_payload(e):
-    e = strip(e)
-    if _is_some(e):
-        return e["fields"][0]["e"]
-    return None
-
-
-def r11_shape_typestate(facts):
-    """R11: every value entering a pending-delta or gradient slot has the owner's dimensions."""
-    c = Ctx("R11", facts, "every value entering a pending-delta or gradient slot has the owner's dimensions")
-    m = PassModel(facts)
-    if not m.ok:
-        c.floor("Array::backward model (%s)" % m.why, 0, 1)
-        return c
-    bw = m.bw
-    ds = m.delta_sets()
-    gs = m.gradient_stores()
-    c.floor("pending-delta stores in backward", len(ds), 2)
-    c.floor("gradient stores in backward", len(gs), 2)
-    for n, ctx, owner, val in ds:
-        payload = _some_payload(val)
-        arm = _arm_kind(ctx)
-        inst = "sink:delta-merge-%s" % ("later" if arm == "Some" else "first" if arm == "None" else "other")
-        if payload is None:
-            if _is_none(val):
-                c.ok(inst + "#clear", loc(bw, n), "slot cleared", nontrivial=False)
-                continue
-            c.unk(inst, loc(bw, n), "stored value is not Some(..): %s" % show(val)[:100])
-            continue
-        sh = m.shape(payload)
-        c.check(sh == ("owner", owner), inst, loc(bw, n),
-                "value stored into %s.delta is typed Owner(%s)" % (owner.split("#")[0], owner.split("#")[0]),
-                "value stored into %s.delta is not reduced to %s's dimensions (%s): a broadcast operand used more than once keeps the broadcast shape"
-                % (owner.split("#")[0] if owner else "?", owner.split("#")[0] if owner else "?", sh[1] if sh[0] == "raw" else "owner is %s" % sh[1]))
-    for n, ctx, owner, val in gs:
-        payload = _some_payload(val)
-        arm = _arm_kind(ctx)
-        inst = "sink:gradient-%s" % ("accumulate" if arm == "Some" else "first" if arm == "None" else "other")
-        if payload is None:
-            c.unk(inst, loc(bw, n), "stored value is not Some(..): %s" % show(val)[:100])
-            continue
-        sh = m.shape(payload)
-        c.check(sh == ("owner", owner), inst, loc(bw, n),
-                "gradient stored for %s is typed Owner(%s)" % (owner.split("#")[0], owner.split("#")[0]),
-                "gradient stored for %s does not provably have its dimensions (%s)" % (owner.split("#")[0] if owner else "?", sh[1]))
-    # flatten_to summary cross-check
-    ft = None
-    for b in facts.fns():
-        if b.get("impl_self") == ARRAY and b.get("name") == "flatten_to":
-            ft = b
-    if ft is None:
-        c.floor("flatten_to", 0, 1)
-    else:
-        ok, why = _flatten_to_summary(facts, ft)
-        c.check(ok, "summary:flatten_to", "%s:%d" % (F.rel(ft["file"]), ft["sp"][0]),
-                "flatten_to returns self under `self.dimensions == dimensions`, else a sliced_op whose output dimensions are the parameter (flatten_count 0)", why)
-    return c
-
-
-def _arm_kind(ctx):
-    for fr in reversed(ctx):
-        if fr[0] == "arm":
-            pat = fr[1]["arms"][fr[2]]["pat"]
-            p = pat
-            while p.get("k") in ("Deref", "DerefPattern"):
-                p = p["sub"]
-            if p.get("k") == "Variant" and p.get("adt") == OPTION:
-                return p["variant"]
-    return None
-
-
-def _flatten_to_summary(facts, ft):
-    root = strip(facts.root(ft))
-    selfv = self_var(facts, ft)
-    ps = param_vars(facts, ft)
-    dimv = ps[1][0] if len(ps) > 1 else None
-    top = _tail(root)
-    if not (isinstance(top, dict) and top.get("k") == "If" and top.get("else") is not None):
-        return False, "flatten_to is not of the form `if self.dimensions == dimensions { self } else { .. }`"
-    cond = strip(top["cond"])
-    sides = None
-    if cond.get("k") == "Binary" and cond["op"] == "Eq":
-        sides = [cond["l"], cond["r"]]
-    elif cond.get("k") == "Call" and callee(cond) == "core::cmp::PartialEq::eq":
-        sides = cond["args"]
-    if not sides:
-        return False, "guard is not an equality"
-    okc = False
-    for a, b in ((sides[0], sides[1]), (sides[1], sides[0])):
-        r, ch = field_chain(a)
-        if var_of(r) == selfv and ch == ["dimensions"] and var_of(b) == dimv:
-            okc = True
-    if not okc:
-        return False, "guard does not compare self.dimensions with the target parameter"
-    th = _tail(top["then"])
-    if var_of(th) != selfv:
-        return False, "the equal-dimensions branch does not return self"
-    el = top["else"]
-    stmts, tail = [], strip(el)
-    while isinstance(tail, dict) and tail.get("k") == "Block":
-        if tail.get("e") is None:
-            return False, "else branch has no value"
-        tail = strip(tail["e"])
-    if not (tail.get("k") == "Call" and resolved(tail) == SLICED_OP):
-        return False, "the reducing branch is not a sliced_op call"
-    if var_of(tail["args"][4]) != dimv:
-        return False, "sliced_op output dimensions are not the target parameter"
-    if lit_value(tail["args"][6]) != 0:
-        return False, "sliced_op flatten_count is not 0"
-    return True, ""
-
-
-# ------------------------------------------------------------------ R14
-
-def r14_default_seed(facts):
-    """R14: the omitted seed is ones of the root's shape."""
-    c = Ctx("R14", facts, "omitted seed = ones with the root's dimensions")
-    m = PassModel(facts)
-    if not m.ok:
-        c.floor("Array::backward model (%s)" % m.why, 0, 1)
-        return c
-    bw = m.bw
-    found = 0
-    for n, ctx in walk_ctx(m.root):
-        if n.get("k") == "Match" and var_of(n["scrutinee"]) == m.seedv:
-            for a in n["arms"]:
-                p = a["pat"]
-                if p.get("k") == "Variant" and p["variant"] == "None":
-                    found += 1
-                    body = _tail(a["body"])
-                    ok, why = _is_ones_of_self(m, body)
-                    c.check(ok, "seed:default", loc(bw, body), "None seed -> Array::from((self.dimensions.clone(), vec![1.0; self.values.len()]))", why)
-                if p.get("k") == "Variant" and p["variant"] == "Some":
-                    body = _tail(a["body"])
-                    bvars = [v for v, _, _, _ in F.pat_bindings(p)]
-                    c.check(var_of(body) in bvars, "seed:given", loc(bw, body), "a supplied seed is used as given",
-                            "a supplied seed is not used as given: %s" % show(body)[:80])
-        if n.get("k") == "If" and strip(n["cond"]).get("k") == "Let" and var_of(strip(n["cond"])["e"]) == m.seedv:
-            c.unk("seed:shape", loc(bw, n), "seed selected by if-let: form not analysed")
-    c.floor("match on the seed parameter with a None arm", found, 1)
-    return c
-
-
-def _is_ones_of_self(m, e):
-    e = strip(e)
-    if not (e.get("k") == "Call" and (resolved(e) or "").startswith("<corgi::array::Array as core::convert::From<(")):
-        return False, "default seed is not built by the (dimensions, values) constructor: %s" % show(e)[:100]
-    tup = strip(e["args"][0])
-    if tup.get("k") != "Tuple" or len(tup["fields"]) != 2:
-        return False, "constructor argument is not a (dimensions, values) tuple"
-    if m.owner_of_dims(tup["fields"][0]) != m.selfv:
-        return False, "default seed dimensions are not self.dimensions"
-    v = strip(tup["fields"][1])
-    if v.get("k") == "Call" and callee(v) == "alloc::rc::Rc::<T>::new":
-        v = strip(v["args"][0])
-    if not (v.get("k") == "Call" and callee(v) == "alloc::vec::from_elem"):
-        return False, "default seed values are not vec![x; n]: %s" % show(v)[:80]
-    if lit_value(v["args"][0]) != 1.0:
-        return False, "default seed is filled with %s, not 1.0" % show(v["args"][0])
-    n = peel(v["args"][1])
-    ok_n = False
-    if n.get("k") == "Call" and callee(n) in ("alloc::vec::Vec::<T, A>::len", "core::slice::<impl [T]>::len"):
-        r, ch = field_chain(n["args"][0])
-        ok_n = var_of(r) == m.selfv and ch == ["values"]
-    elif n.get("k") == "Call" and callee(n) == "core::iter::traits::iterator::Iterator::product":
-        for x in walk(n):
-            if x.get("k") == "Field" and x["name"] == "dimensions" and var_of(x["e"]) == m.selfv:
-                ok_n = True
-    if not ok_n:
-        return False, "default seed length is not self.values.len() / product of self.dimensions: %s" % show(n)[:80]
-    return True, ""
-
-
-# ------------------------------------------------------------------ R25
-
-def _vars_in(e):
-    return {x["v"] for x in walk(e) if x.get("k") in ("VarRef", "UpvarRef")}
-
-
-ADD = "corgi::array::arithmetic::<impl core::ops::arith::Add<&corgi::array::Array> for &corgi::array::Array>::add"
-
-
-def r25_accumulate_arms(facts):
-    """R25: slots accumulate: Some(old) arm stores old + new, None arm stores new."""
-    c = Ctx("R25", facts, "slots accumulate: Some(old) arm stores old + new, None arm stores new")
-    m = PassModel(facts)
-    if not m.ok:
-        c.floor("Array::backward model (%s)" % m.why, 0, 1)
-        return c
-    bw = m.bw
-
-    def check_group(name, stores, newval_desc):
-        by_match = {}
-        for n, ctx, owner, val in stores:
-            mm = None
-            for fr in reversed(ctx):
-                if fr[0] == "arm":
-                    mm = fr
-                    break
-            if mm is None:
-                c.unk("%s:unmatched" % name, loc(bw, n), "store into the %s slot outside a match on the slot's content" % name)
-                continue
-            by_match.setdefault(id(mm[1]), []).append((n, ctx, owner, val, mm))
-        for _, lst in by_match.items():
-            match = lst[0][4][1]
-            n_owner, fld = m.slot_owner(match["scrutinee"])
-            if n_owner is None:
-                c.unk("%s:scrutinee" % name, loc(bw, match), "the match around the %s stores does not inspect the slot's content" % name)
-                continue
-            arms_seen = set()
-            for n, ctx, owner, val, mm in lst:
-                arm = match["arms"][mm[2]]
-                kind = _arm_kind((mm,))
-                arms_seen.add(kind)
-                payload = _some_payload(val)
-                if owner != n_owner:
-                    c.bad("%s:%s-arm" % (name, kind), loc(bw, n), "store goes to %s's slot but the match inspected %s's" % (owner, n_owner))
-                    continue
-                if payload is None:
-                    c.bad("%s:%s-arm" % (name, kind), loc(bw, n), "the %s arm does not store Some(..)" % kind)
-                    continue
-                p = peel(payload)
-                if kind == "Some":
-                    oldvars = [v for v, _, _, _ in F.pat_bindings(arm["pat"])]
-                    ok = p.get("k") == "Call" and resolved(p) == ADD
-                    if ok:
-                        a0 = _vars_in(p["args"][0])
-                        a1 = _vars_in(p["args"][1])
-                        has_old = (a0 & set(oldvars)) or (a1 & set(oldvars))
-                        other = a1 if (a0 & set(oldvars)) else a0
-                        has_new = bool(other - set(oldvars)) and _only_linear_wrappers(p["args"][1] if (a0 & set(oldvars)) else p["args"][0])
-                        ok = bool(has_old) and has_new
-                    c.check(ok, "%s:Some-arm" % name, loc(bw, n),
-                            "occupied slot: stores old + new (resolved <&Array as Add<&Array>>::add)",
-                            "occupied %s slot is not updated to old + new: %s (an earlier contribution would be lost or combined wrongly)" % (name, show(payload)[:120]))
-                elif kind == "None":
-                    oldvars = []
-                    ok = _only_linear_wrappers(payload) and len(_vars_in(payload) - {n_owner}) >= 1
-                    c.check(ok, "%s:None-arm" % name, loc(bw, n), "empty slot: stores the new contribution",
-                            "empty %s slot does not store the new contribution as is: %s" % (name, show(payload)[:120]))
-            for kind in ("Some", "None"):
-                if kind not in arms_seen:
-                    c.bad("%s:%s-arm" % (name, kind), loc(bw, match), "the %s arm of the match on the %s slot stores nothing" % (kind, name))
-
-    check_group("delta", m.delta_sets(), "")
-    check_group("gradient", m.gradient_stores(), "")
-    c.floor("slot stores examined", len(m.delta_sets()) + len(m.gradient_stores()), 4)
-    return c
-
-
-def _only_linear_wrappers(e):
-    """e is a variable possibly wrapped in flatten_to / clone / borrows"""
-    e = peel(e)
-    if e.get("k") in ("VarRef", "UpvarRef"):
-        return True
-    if e.get("k") == "Call" and resolved(e) in ("corgi::array::Array::flatten_to", "<corgi::array::Array as core::clone::Clone>::clone"):
-        return _only_linear_wrappers(e["args"][0])
-    return False
-
-
-# ------------------------------------------------------------------ R23
-
-def r23_engine_state_layering(facts):
-    """R23: only the engine touches counters, pending deltas and gradient slots."""
-    c = Ctx("R23", facts, "only the engine touches counters, pending deltas and gradient slots")
-    roles = field_roles(facts)
-    for r in ("counter", "delta", "gradient"):
-        c.floor("%s field (by type)" % r, len(roles.get(r, [])), 1)
-    eng = engine_bodies(facts)
-    c.floor("engine bodies", len(eng), 2)
-    eng_roots = {b["def"] for b in eng.values()}
-    clone_def = None
-    debug_def = None
-    funnel = None
-    for x in facts.fns():
-        if x.get("impl_self") == ARRAY and x.get("impl_trait_def") == "core::clone::Clone" and x.get("name") == "clone":
-            clone_def = x["def"]
-        if x.get("impl_self") == ARRAY and x.get("impl_trait_def") == "core::fmt::Debug":
-            debug_def = x["def"]
-    # gradient accessors: pub methods of Array whose body is a single RefCell call on the field
-    accessors = set()
-    gfield = (roles.get("gradient") or [None])[0]
-    for b in facts.fns():
-        if b.get("impl_self") == ARRAY and b.get("impl_trait_def") is None and b["def"] not in eng_roots:
-            _, tail = closure_tail(facts, b)
-            t = peel(tail) if tail is not None else None
-            if isinstance(t, dict) and t.get("k") == "Call" and (callee(t) or "").startswith("core::cell::RefCell::<T>::") and t["args"]:
-                r_, ch = field_chain(t["args"][0])
-                if ch == [gfield] and var_of(r_) == self_var(facts, b):
-                    stmts, _ = closure_tail(facts, b)
-                    if not stmts:
-                        accessors.add(b["def"])
-    c.floor("gradient accessor methods", len(accessors), 3)
-    n = 0
-    for b in facts.bodies:
-        mir = b.get("mir")
-        if not mir:
-            continue
-        rootdef = b.get("root", b["def"])
-        touched = {}
-        for p in mir["field_places"]:
-            if p["ctx"] == "write:Drop" or p.get("cleanup"):
-                # drop elaboration of an owned array that is being consumed: releases the
-                # handle's share of the slot, does not read or write the slot's content
-                continue
-            for e in p["proj"]:
-                if isinstance(e, dict) and e.get("adt") == ARRAY:
-                    for r in ("counter", "delta", "gradient"):
-                        if e["field"] in roles.get(r, []):
-                            touched.setdefault(r, p)
-        for r, p in touched.items():
-            n += 1
-            where = "%s:%d" % (F.rel(b["file"]), p["sp"][0])
-            inst = "touch:%s#%s" % (b["def"], r)
-            if rootdef in eng_roots:
-                c.ok(inst, where, "engine body")
-            elif rootdef == clone_def:
-                c.ok(inst, where, "Clone (shares the slot; provenance checked by R5)", nontrivial=False)
-            elif rootdef == debug_def and r == "counter":
-                ok = not _writes_cell(facts, b, roles[r])
-                c.check(ok, inst, where, "Debug::fmt reads the counter for display only", "Debug::fmt writes the counter")
-            elif r == "gradient" and rootdef in accessors:
-                c.ok(inst, where, "public gradient accessor (single RefCell call on the slot)")
-            else:
-                c.bad(inst, where, "%s touches the %s slot of an array: engine state is reserved to backward/propagate_consumers "
-                      "(residue left here is only seen by a later overlapping pass)" % (b["def"], r))
-    c.floor("engine-state touch sites", n, 6)
-    return c
-
-
-def _writes_cell(facts, b, fields):
-    for n in walk(facts.root(b)):
-        if n.get("k") == "Call" and (callee(n) or "").startswith(CELL) and callee(n).split("::")[-1] in FLAG_WRITE_METHODS and n["args"]:
-            r, ch = field_chain(n["args"][0])
-            if ch and ch[-1] in fields:
-                return True
-    return False
-
-
-# ------------------------------------------------------------------ R24
-
-def r24_count_protocol(facts):
-    """R24: counting / decrementing / recursion are guarded by the shared consumer counter; one invocation site."""
-    c = Ctx("R24", facts, "consumer-count protocol guards and the single derivative invocation site")
-    eng = engine_bodies(facts)
-    c.floor("engine bodies", len(eng), 2)
-    counter = role(facts, "counter")
-    flags = field_roles(facts).get("flags", [])
-    if not counter or len(eng) < 2:
-        c.floor("counter field Rc<Cell<usize>>", 1 if counter else 0, 1)
-        return c
-    # ---- single invocation site, outside loops
-    sites = invocation_sites(facts)
-    lib_sites = sites
-    c.floor("derivative invocation sites", len(lib_sites), 1)
-    for b, n, ctx in lib_sites:
-        in_engine = b["def"] == eng["backward"]["def"]
-        in_loop = any(fr[0] == "loop" for fr in ctx) or b["kind"] == "Closure"
-        c.check(in_engine and not in_loop and len(lib_sites) == 1, "invoke:%s" % b["def"], loc(b, n),
-                "the derivative closure is invoked at one site, once per call of backward (outside any loop)",
-                "derivative closure invoked %s" % ("inside a loop/closure" if in_loop else "outside Array::backward" if not in_engine else "at %d sites" % len(lib_sites)))
-    # the invoked closure is self.backward_op
-    deriv = role(facts, "derivative")
-    for b, n, ctx in lib_sites:
-        if b["def"] != eng["backward"]["def"]:
-            continue
-        recv = peel(n["args"][0])
-        v = var_of(recv)
-        binds = F.bindings_of(facts.root(b))
-        src = None
-        if v and v in binds and binds[v][0] == "pat":
-            r_, ch = field_chain(binds[v][1])
-            if ch == [deriv] and var_of(r_) == self_var(facts, b):
-                src = "self.%s" % deriv
-        c.check(src is not None, "invoke:callee", loc(b, n), "the invoked closure is %s" % src,
-                "the invoked closure is not the node's own recorded derivative")
-
-    # ---- every write of the counter in the crate
-    writes = []
-    for b in facts.bodies:
-        for n, ctx in walk_ctx(facts.root(b)):
-            if n.get("k") == "Call" and (callee(n) or "").startswith(CELL) and callee(n).split("::")[-1] in FLAG_WRITE_METHODS and n["args"]:
-                r_, ch = field_chain(n["args"][0])
-                if ch and ch[-1] == counter:
-                    writes.append((b, n, ctx, var_of(r_)))
-    c.floor("writes of the consumer counter", len(writes), 2)
-    for b, n, ctx, owner in writes:
-        binds = F.bindings_of(facts.root(b))
-        inst_base = "count-write:%s" % b["def"]
-        m = callee(n).split("::")[-1]
-        if m != "set":
-            c.bad(inst_base + "#" + m, loc(b, n), "consumer counter written with Cell::%s" % m)
-            continue
-        val = strip(n["args"][1])
-
-        def reading(e):
-            """e reads owner's counter: ('prev'|'new') relative to this write, or None"""
-            e0 = strip(e)
-            v = var_of(e0) if e0.get("k") in ("VarRef", "UpvarRef") else None
-            src, at = None, None
-            if v and v in binds and binds[v][0] == "let" and binds[v][1] is not None:
-                src, at = peel(binds[v][1]), binds[v][1].get("sp")
-            elif e0.get("k") == "Call":
-                src, at = peel(e0), e0.get("sp")
-            if src is None or src.get("k") != "Call" or callee(src) != CELL + "get":
-                return None
-            r2, ch2 = field_chain(src["args"][0])
-            if not (ch2 and ch2[-1] == counter and var_of(r2) == owner):
-                return None
-            if e0.get("k") == "Call" and any(x is e0 for x in walk(n)):
-                return "prev"       # an argument of the write itself is evaluated before it
-            return "prev" if tuple(at[:2]) <= tuple(n["sp"][:2]) else "new"
-
-        form = None
-        if val.get("k") == "Binary" and val["op"] in ("Add", "Sub") and lit_value(val["r"]) == 1 and reading(val["l"]) == "prev":
-            form = "inc" if val["op"] == "Add" else "dec"
-        if form is None:
-            c.bad(inst_base + "#form", loc(b, n), "counter write is not `set(get() +/- 1)` on the same node: %s" % show(val)[:100])
-            continue
-
-        def guarded_by_count(ctx2, want_prev, want_new):
-            for fr in ctx2:
-                if fr[0] == "if" and fr[2] == "then":
-                    cond = strip(fr[1]["cond"])
-                    if cond.get("k") == "Binary" and cond["op"] == "Eq":
-                        for x, y in ((cond["l"], cond["r"]), (cond["r"], cond["l"])):
-                            k_ = lit_value(y)
-                            rd = reading(x)
-                            if rd == "prev" and k_ == want_prev:
-                                return True
-                            if rd == "new" and k_ == want_new:
-                                return True
-            return False
-
-        if form == "inc":
-            ok_body = b["def"] == eng["propagate_consumers"]["def"]
-            guard = False
-            for fr in ctx:
-                if fr[0] == "if" and fr[2] == "then":
-                    cond = peel(fr[1]["cond"])
-                    if cond.get("k") == "Call" and callee(cond) == CELL + "get":
-                        r3, ch3 = field_chain(cond["args"][0])
-                        if ch3 == ["is_tracked"] and var_of(r3) == owner:
-                            guard = True
-            c.check(ok_body and guard, "count:increment", loc(b, n),
-                    "a child's counter is incremented only in propagate_consumers and only if that child is tracked",
-                    "counter increment %s" % ("is not guarded by exactly the child's is_tracked flag (children that are never delivered to keep a residue; "
-                                              "children that are delivered to but not counted underflow)" if ok_body else "outside propagate_consumers"))
-            rec_ok = None
-            for n2, ctx2 in walk_ctx(facts.root(b)):
-                if n2.get("k") == "Call" and resolved(n2) == eng["propagate_consumers"]["def"] and var_of(n2["args"][0]) == owner:
-                    rec_ok = guarded_by_count(ctx2, 0, 1)
-                    c.check(rec_ok, "count:descend-once", loc(b, n2),
-                            "descent into a child only when its previous count was 0 (no double counting below shared nodes)",
-                            "recursive propagate_consumers is not guarded by `previous count == 0`: nodes below a shared child are counted once per path")
-            if rec_ok is None:
-                c.bad("count:descend-once", loc(b, n), "no recursive descent into tracked children found")
-        else:
-            ok_body = b["def"] == eng["backward"]["def"]
-            guard = False
-            for fr in ctx:
-                if fr[0] == "if" and fr[2] == "then":
-                    cond = strip(fr[1]["cond"])
-                    if cond.get("k") == "Let" and cond["pat"].get("k") == "Variant" and cond["pat"]["variant"] == "Some":
-                        guard = True
-                if fr[0] == "arm":
-                    pat = fr[1]["arms"][fr[2]]["pat"]
-                    if pat.get("k") == "Variant" and pat.get("adt") == OPTION and pat["variant"] == "Some":
-                        guard = True
-            c.check(ok_body and guard, "count:decrement", loc(b, n),
-                    "a child's counter is decremented only in backward and only when a delta was delivered to it",
-                    "counter decrement %s" % ("is not conditional on a delivered delta" if ok_body else "outside backward"))
-            rec = None
-            for n2, ctx2 in walk_ctx(facts.root(b)):
-                if n2.get("k") == "Call" and resolved(n2) == eng["backward"]["def"] and var_of(n2["args"][0]) == owner:
-                    rec = guarded_by_count(ctx2, 1, 0)
-                    c.check(rec, "count:recurse-at-zero", loc(b, n2),
-                            "recursion into a child only when the delivered delta was its last outstanding one (previous count == 1 / new count == 0)",
-                            "recursive backward on a child is not guarded by its consumer count reaching zero: its derivative runs once per consumer (exponential on self-products) with a partial adjoint")
-                    seed = strip(n2["args"][1])
-                    c.check(_is_none(seed), "count:recurse-seed", loc(b, n2), "the child continues from its pending delta (seed None)",
-                            "recursive call passes an explicit seed instead of using the child's pending delta")
-            if rec is None:
-                c.bad("count:recurse-at-zero", loc(b, n), "no recursive backward into children found")
-    # ---- counting happens exactly when a pass starts at a node without a pending delta
-    bw = eng["backward"]
-    m = PassModel(facts)
-    n_recount = 0
-    for n2, ctx2 in walk_ctx(facts.root(bw)):
-        if n2.get("k") == "Call" and resolved(n2) == eng["propagate_consumers"]["def"]:
-            n_recount += 1
-            on_self = var_of(n2["args"][0]) == m.selfv
-            in_absent_branch = False
-            for fr in ctx2:
-                if fr[0] == "if" and fr[2] == "else":
-                    cond = strip(fr[1]["cond"])
-                    if cond.get("k") == "Let" and cond["pat"].get("k") == "Variant" and cond["pat"]["variant"] == "Some":
-                        o_, f_ = m.slot_owner(cond["e"])
-                        if o_ == m.selfv and f_ == m.f_delta:
-                            in_absent_branch = True
-                if fr[0] == "arm":
-                    pat = fr[1]["arms"][fr[2]]["pat"]
-                    if pat.get("k") == "Variant" and pat.get("adt") == OPTION and pat["variant"] == "None":
-                        o_, f_ = m.slot_owner(fr[1]["scrutinee"])
-                        if o_ == m.selfv and f_ == m.f_delta:
-                            in_absent_branch = True
-            c.check(on_self and in_absent_branch, "count:recount-only-at-root", loc(bw, n2),
-                    "consumers are (re)counted only when the pass starts at a node that has no pending delta (i.e. at the root of a pass)",
-                    "propagate_consumers is called from backward outside the 'no pending delta' branch: nodes reached by the recursion are "
-                    "counted again in the middle of a pass")
-    c.check(n_recount >= 1, "count:recount-present", "%s:%d" % (F.rel(bw["file"]), bw["sp"][0]),
-            "backward counts consumers when it starts a pass", "backward never counts consumers: decrements would underflow")
-    # ---- slot i of the derivative's result is delivered to child i
-    n_child = 0
-    for n2, ctx2 in walk_ctx(facts.root(bw)):
-        if n2.get("k") == "Call" and callee(n2) in ("core::ops::index::Index::index",) and len(n2["args"]) == 2:
-            r_, ch = field_chain(n2["args"][0])
-            if ch == [m.f_edges] and var_of(r_) == m.selfv:
-                n_child += 1
-                iv = var_of(n2["args"][1]) if peel(n2["args"][1]).get("k") in ("VarRef", "UpvarRef") else None
-                ok = False
-                why = "children are indexed with an expression that is not the position of the slot"
-                if iv:
-                    bnd = m.binds.get(iv)
-                    if bnd and bnd[0] == "pat" and [p for p in bnd[2] if p != "*"][-1:] == ["0"]:
-                        # bound as the index component of `.enumerate()` over the closure result
-                        src = bnd[1]
-                        has_enum = False
-                        vs = set()
-                        todo = [src]
-                        seen = set()
-                        while todo:
-                            e_ = todo.pop()
-                            for x in walk(e_):
-                                if x.get("k") == "Call" and callee(x) == "core::iter::traits::iterator::Iterator::enumerate":
-                                    has_enum = True
-                                if x.get("k") in ("VarRef", "UpvarRef") and x["v"] not in seen:
-                                    seen.add(x["v"])
-                                    b2 = m.binds.get(x["v"])
-                                    if b2 and b2[1] is not None:
-                                        todo.append(b2[1])
-                        sites = [s for s in invocation_sites(facts) if s[0]["def"] == bw["def"]]
-                        from_inv = bool(sites) and any(any(y is sites[0][1] for y in walk(m.binds[v][1])) for v in seen if v in m.binds and m.binds[v][1] is not None)
-                        if has_enum and from_inv:
-                            ok = True
-                        else:
-                            why = "the child index is not the enumerate() position over the derivative's result vector"
-                c.check(ok, "engine:slot-child-alignment", loc(bw, n2),
-                        "slot i of the derivative's result is delivered to self.children[i] (index = enumerate position)", why)
-    if n_child == 0:
-        # accepted alternative: children zipped with the result vector
-        zipped = False
-        for n2 in walk(facts.root(bw)):
-            if n2.get("k") == "Call" and callee(n2) == "core::iter::traits::iterator::Iterator::zip":
-                r0, c0 = field_chain(n2["args"][0])
-                if c0 == [m.f_edges] or any(x.get("k") == "Field" and x.get("name") == m.f_edges for x in walk(n2["args"][0])):
-                    zipped = True
-        c.check(zipped, "engine:slot-child-alignment", "%s:%d" % (F.rel(bw["file"]), bw["sp"][0]),
-                "children are zipped with the derivative's result vector", "cannot find how result slots are matched with children")
-    return c
-
-
-def _cmp_var_const(cond, v, op, const):
-    cond = strip(cond)
-    if cond.get("k") == "Binary" and cond["op"] == op:
-        if var_of(cond["l"]) == v and lit_value(cond["r"]) == const:
-            return True
-        if var_of(cond["r"]) == v and lit_value(cond["l"]) == const:
-            return True
-    return False
